@@ -385,6 +385,92 @@ EmitSuffix(p) ==
                       y |-> val.y, alt |-> val.y, e |-> val.e, k |-> k, sk |-> k \o sf.cs, exact |-> sf.ex, np |-> TRUE,
                       x |-> FALSE, why |-> "the variable name continues after the parameter name (only a crash would be a violation)"])
 
+
+\* ---- several variables cooperating on one list of structs (every struct-list parameter, both tiers).
+\* The statement quantifies over parameters; a list item field is a parameter, and a user who defines a list
+\* through the environment sets several of them at once (docs: MTX_AUTHINTERNALUSERS_0_USER, ..._0_PASS).
+\* The file holds blen complete items (or, base = "defaults", the list is not in the file and the built-in
+\* defaults apply); each scenario is a set of assignments [idx, sub, fv]: field fv.f of item idx (sub = <<>>), or of
+\* item sub.n of the list sub.tag nested in item idx. Equations as for one variable: environment = same values
+\* written into the file; environment overrides other values written into the file.
+FV(f, yv, av, ev) == [f |-> f, y |-> yv, alt |-> av, e |-> ev]
+ES(f, va, vb) == FV(f, va, vb, va)
+ItemTable(tag) ==
+    CASE tag = "authInternalUsers" ->
+            [ov |-> <<ES("user", "userx", "usery")>>, ov2 |-> <<ES("pass", "passz", "passw")>>,
+             new1 |-> <<ES("user", "newa", "newb")>>, new2 |-> <<ES("user", "newc", "newd"), ES("pass", "pwc", "pwd")>>,
+             nested |-> [tag |-> "permissions", fv |-> ES("path", "nestedp", "nestedq")]]
+      [] tag \in {"permissions", "authHTTPExclude", "authJWTExclude"} ->
+            [ov |-> <<ES("action", "read", "playback")>>, ov2 |-> <<ES("path", "ovp", "ovq")>>,
+             new1 |-> <<ES("action", "api", "metrics")>>, new2 |-> <<ES("action", "pprof", "publish"), ES("path", "np", "nq")>>,
+             nested |-> [tag |-> "", fv |-> ES("", "", "")]]
+      [] tag = "webrtcICEServers2" ->
+            [ov |-> <<ES("url", "stun:ov.example.org:3478", "stun:ow.example.org:3478")>>, ov2 |-> <<ES("username", "ovu", "ovv")>>,
+             new1 |-> <<ES("url", "turn:na.example.org:3478", "turn:nb.example.org:3478")>>,
+             new2 |-> <<ES("url", "stun:nc.example.org:3478", "stun:nd.example.org:3478"), ES("password", "s3", "s4")>>,
+             nested |-> [tag |-> "", fv |-> ES("", "", "")]]
+      [] tag = "forward" ->
+            [ov |-> <<ES("dest", "rtsp://ov.example.org:8554/a", "rtsp://ow.example.org:8554/a")>>, ov2 |-> <<ES("whipBearerToken", "tok1", "tok2")>>,
+             new1 |-> <<ES("dest", "rtmp://na.example.org/app/k", "rtmp://nb.example.org/app/k")>>,
+             new2 |-> <<ES("dest", "srt://nc.example.org:8890?streamid=publish:x", "srt://nd.example.org:8890?streamid=publish:x")>>,
+             nested |-> [tag |-> "", fv |-> ES("", "", "")]]
+      [] tag = "alwaysAvailableTracks" ->
+            [ov |-> <<FV("sampleRate", 48000, 22050, "48000")>>, ov2 |-> <<FV("channelCount", 1, 6, "1")>>,
+             new1 |-> <<ES("codec", "G711", "LPCM"), FV("sampleRate", 8000, 16000, "8000"), FV("channelCount", 1, 2, "1")>>,
+             new2 |-> <<ES("codec", "LPCM", "G711"), FV("sampleRate", 48000, 44100, "48000"), FV("channelCount", 2, 1, "2")>>,
+             nested |-> [tag |-> "", fv |-> ES("", "", "")]]
+      [] OTHER -> [ov |-> <<>>, ov2 |-> <<>>, new1 |-> <<>>, new2 |-> <<>>, nested |-> [tag |-> "", fv |-> ES("", "", "")]]
+
+Asg(idx, sub, fvs) == [i \in 1..Len(fvs) |-> [idx |-> idx, sub |-> sub, fv |-> fvs[i]]]
+NoSub == [tag |-> "", n |-> 0]
+Scenarios(tag, blen) ==
+    LET t == ItemTable(tag) IN
+    << [n |-> "overrideExisting",       a |-> Asg(0, NoSub, t.ov)],
+       [n |-> "appendNew",              a |-> Asg(blen, NoSub, t.new1)],
+       [n |-> "overrideExistingAppendNew", a |-> Asg(0, NoSub, t.ov) \o Asg(blen, NoSub, t.new1)],
+       [n |-> "overrideLastAppendNew",  a |-> Asg(blen - 1, NoSub, t.ov) \o Asg(blen, NoSub, t.new1)],
+       [n |-> "overrideTwoExisting",    a |-> Asg(0, NoSub, t.ov) \o Asg(1, NoSub, t.ov2)],
+       [n |-> "appendTwoNew",           a |-> Asg(blen, NoSub, t.new1) \o Asg(blen + 1, NoSub, t.new2)] >>
+    \o (IF t.nested.tag = "" THEN <<>>
+        ELSE << [n |-> "overrideNestedAppendNew",
+                 a |-> Asg(0, [tag |-> t.nested.tag, n |-> 0], <<t.nested.fv>>) \o Asg(blen, NoSub, t.new1)],
+                [n |-> "appendNestedAppendNew",
+                 a |-> Asg(0, [tag |-> t.nested.tag, n |-> 1], <<t.nested.fv>>) \o Asg(blen, NoSub, t.new1)] >>)
+
+\* characters of the tag of field f of the items of list parameter lp (from the parameters the harness enumerated)
+IsChildOf(q, a, f) == /\ Len(q.addr) = Len(a) + 2 /\ SubSeq(q.addr, 1, Len(a)) = a
+                      /\ q.addr[Len(a) + 1].t = "i" /\ q.addr[Len(a) + 2].t = "f" /\ q.addr[Len(a) + 2].s = f
+FieldCs(a, f) == LET i == CHOOSE j \in 1..Len(Params) : IsChildOf(Params[j], a, f) IN Params[i].addr[Len(a) + 2].cs
+HasField(a, f) == \E j \in 1..Len(Params) : IsChildOf(Params[j], a, f)
+\* address (in the enumerated form) of the list nested under field tg of the items of the list at a
+NestedAddr(a, tg) == LET i == CHOOSE j \in 1..Len(Params) : IsChildOf(Params[j], a, tg) IN Params[i].addr
+
+ListBases(p) == IF p.dlen > 0 /\ NI(p) = 0 THEN <<"file", "defaults">> ELSE <<"file">>
+EmitListParam(p) ==
+    LET cx   == SuffixCtx(p)                       \* the simple context: path cam present, outer item 0 of 2
+        la   == Concrete(p.addr, cx.key, IF NI(p) = 0 THEN <<>> ELSE << [len |-> 2, idx |-> 0] >>)
+    IN \A bi \in 1..Len(ListBases(p)) :
+        LET bs == ListBases(p)[bi]
+            blen == IF bs = "defaults" THEN p.dlen ELSE 2
+            scs  == Scenarios(p.tag, blen)
+        IN \A si \in 1..Len(scs) :
+            LET sc == scs[si]
+                keyOf(as) == IF as.sub.tag = ""
+                             THEN KeyOf(la \o <<I(as.idx), F(FieldCs(p.addr, as.fv.f))>>)
+                             ELSE KeyOf(la \o <<I(as.idx), F(FieldCs(p.addr, as.sub.tag)), I(as.sub.n),
+                                                 F(FieldCs(NestedAddr(p.addr, as.sub.tag), as.fv.f))>>)
+            IN (sc.a # <<>> /\ \A ai \in 1..Len(sc.a) : IF sc.a[ai].sub.tag = "" THEN HasField(p.addr, sc.a[ai].fv.f) ELSE HasField(p.addr, sc.a[ai].sub.tag)) =>
+               Emit("MCASE", [pid |-> p.pid, scen |-> sc.n, base |-> bs, blen |-> blen, key |-> cx.key,
+                              outer |-> NI(p) > 0,
+                              assigns |-> [ai \in 1..Len(sc.a) |->
+                                  [idx |-> sc.a[ai].idx, subtag |-> sc.a[ai].sub.tag, subn |-> sc.a[ai].sub.n,
+                                   f |-> sc.a[ai].fv.f, y |-> sc.a[ai].fv.y, alt |-> sc.a[ai].fv.alt, e |-> sc.a[ai].fv.e,
+                                   k |-> keyOf(sc.a[ai])]]])
+EmitLists == GenMode => \A i \in 1..Len(Params) : (Params[i].kind = "structlist" /\ NI(Params[i]) <= 1) => EmitListParam(Params[i])
+\* a struct-list parameter without an item table would go unnoticed: reported like a missing value table
+NoItemTable == GenMode => \A i \in 1..Len(Params) :
+                   (Params[i].kind = "structlist" /\ ItemTable(Params[i].tag).ov = <<>>) => Emit("NOTABLE", [pid |-> Params[i].pid, type |-> Params[i].type])
+
 EmitCases == GenMode => \A i \in 1..Len(Params) :
                  ValsOf(Params[i]) # <<>> => (EmitParam(Params[i]) /\ (SuffixParam(Params[i]) => EmitSuffix(Params[i])))
 NoTable   == GenMode => \A i \in 1..Len(Params) :
